@@ -104,3 +104,24 @@ def has_priv(obj, name: str) -> bool:
 
 def set_priv(obj, name: str, value) -> None:
     setattr(obj, resolve(obj, name), value)
+
+
+def module_funcs(mod) -> list:
+    """Names of the functions a module defines itself, in definition order."""
+    import types
+    return [n for n, v in vars(mod).items() if isinstance(v, types.FunctionType) and getattr(v, "__module__", None) == mod.__name__]
+
+
+def priv_func(mod, name: str):
+    """A private module-level function, followed through a rename by its position among the module's functions."""
+    if hasattr(mod, name):
+        return getattr(mod, name)
+    base = baseline().get(f"module:{mod.__name__}")
+    if base and name in base:
+        cur = module_funcs(mod)
+        if len(cur) == len(base):
+            cand = cur[base.index(name)]
+            if cand not in base:
+                RENAMED[f"{mod.__name__}.{name}"] = cand
+                return getattr(mod, cand)
+    raise AttributeError(f"module {mod.__name__} has no function {name} and no renamed counterpart could be identified")
